@@ -132,19 +132,30 @@ def shorthands(prog, chk):
                     popped.setdefault(s, fn)
     # the same question asked of the evaluated functions (helpers inlined, table-driven loops run): which literal
     # attribute names reach pop / pop_attr when every attribute is present
-    for fn in ("expand_compound_pos", "expand_compound_size", "resolve_size_delta"):
-        for nm in ("rect", "ellipse"):
+    per_shape = {}
+    for nm in ("rect", "ellipse", "line"):
+        per_shape[nm] = set()
+        for fn in ("expand_compound_pos", "expand_compound_size", "resolve_size_delta"):
             ev = A.Evaluator(prog, watch=("pop", "pop_attr"), opaque=[EL + "::split_compound_attr"], name_case=nm)
             try:
                 ev.summary(EL + "::" + fn)
             except Exception:
-                continue
+                per_shape[nm] = None
+                break
             for c in ev.calls:
                 a0 = c["args"][0] if c["args"] else None
                 if a0 is not None and not A.is_form(a0) and a0[0] == "str":
                     popped.setdefault(a0[1], fn)
+                    per_shape[nm].add(a0[1])
     need = set(SHORTHANDS) | {"xy-loc", "dw", "dh"}
     missing = sorted(need - set(popped))
+    # a shorthand is consumed on every kind of element - also where it has no meaning (rxy on a rect): otherwise it
+    # is copied to the output as an unknown attribute
+    for nm, got in sorted(per_shape.items()):
+        if got is None or not got:
+            continue
+        gone = sorted(need - got)
+        chk.ob(not gone, "A14.shorthand-consumed", nm, "src/element.rs", f"<{nm}>: every shorthand is removed from the element", f"<{nm}> keeps the shorthand attribute(s) {gone}: they are only consumed for some element names and reach the output as they are for the others")
     chk.ob(not missing, "A14.shorthand-consumed", "all", "src/element.rs", f"every shorthand ({sorted(need)}) is popped from the element", f"shorthand attributes never consumed: {missing}")
     for sh, ref in SHORTHANDS.items():
         got = pairs.get(sh)
